@@ -79,7 +79,7 @@ inductive Out where
   | live (t : Tag) (m : Msg)                 -- published at once
   | replay (l : List (Tag × Msg))            -- published in answer to SENDALL (map order: a set)
   | saved (l : List (String × Msg))          -- settings handed to the config file by a save
-deriving Repr, BEq
+deriving Repr, DecidableEq
 
 /-- what SENDALL publishes: every key of `lastMessages` except the no-publish tags -/
 def replay (c : Cache) : List (Tag × Msg) :=
@@ -88,36 +88,40 @@ def replay (c : Cache) : List (Tag × Msg) :=
 /-- value `saveState` stores for a cache key (bookkeeping keys hold constants / the wall clock) -/
 def savedVal (c : Cache) (k : Tag) : Msg := if saveAdds.contains k then "*" else strOf c.strs k
 
-def vipSet (c : Cache) (v : List (String × Msg)) (k : Tag) : List (String × Msg) :=
-  if noSave.contains k.toLower then v else (k.toLower, savedVal c k) :: v
+/-- `low` is the key normalisation of viper and of the no-save test (`strings.ToLower`); the theorems
+hold for any function, the driver uses `String.toLower`. -/
+def vipSet (low : String → String) (c : Cache) (v : List (String × Msg)) (k : Tag) : List (String × Msg) :=
+  if noSave.contains (low k) then v else (low k, savedVal c k) :: v
 
 /-- the cache part of `saveState`: insert the bookkeeping keys, `viper.Set` every key not on the
 no-save list -/
-def saveStep (c : Cache) : Cache :=
+def saveStep (low : String → String) (c : Cache) : Cache :=
   let keys := saveAdds.foldl insertKey c.keys
-  { c with keys := keys, vip := keys.foldl (vipSet c) c.vip }
+  { c with keys := keys, vip := keys.foldl (vipSet low c) c.vip }
 
 /-- the settings a save writes, without the bookkeeping keys; first entry of a key wins -/
 def dedupKeys : List (String × Msg) → List String → List (String × Msg)
   | [], _ => []
   | (k, v) :: r, seen => if seen.contains k then dedupKeys r seen else (k, v) :: dedupKeys r (k :: seen)
 
-def savedView (vip : List (String × Msg)) : List (String × Msg) :=
-  (dedupKeys vip []).filter (fun kv => !(saveAdds.map String.toLower).contains kv.1)
+def savedView (low : String → String) (vip : List (String × Msg)) : List (String × Msg) :=
+  (dedupKeys vip []).filter (fun kv => !(saveAdds.map low).contains kv.1)
 
-def step (c : Cache) : Ev → Cache × List Out
+def step (low : String → String) (c : Cache) : Ev → Cache × List Out
   | .upd t m =>
     if t == "SENDALL" then (c, [.replay (replay c)]) else
-    let out := if noPublish.contains t then [] else [Out.live t m]
+    -- `m = ""` stands for a state that json.Marshal rejects: nothing is published, but the comparison
+    -- below still sees the empty string (outside the domain of the theorems: hypothesis `Valid`)
+    let out := if noPublish.contains t || m == "" then [] else [Out.live t m]
     if t == "NEWDASTARD" then (c, out) else
     if strOf c.strs t != m then
       ({ c with keys := insertKey c.keys t, strs := (t, m) :: c.strs }, out)
     else (c, out)
-  | .save => let c' := saveStep c; (c', [.saved (savedView c'.vip)])
+  | .save => let c' := saveStep low c; (c', [.saved (savedView low c'.vip)])
 
-def run (c : Cache) : List Ev → Cache × List Out
+def run (low : String → String) (c : Cache) : List Ev → Cache × List Out
   | [] => (c, [])
-  | e :: r => let (c1, o1) := step c e; let (c2, o2) := run c1 r; (c2, o1 ++ o2)
+  | e :: r => let (c1, o1) := step low c e; let (c2, o2) := run low c1 r; (c2, o1 ++ o2)
 
 /-! ### The property oracles (evaluated on the model's output in the theorems and on the
 implementation's output at run time) -/
@@ -150,12 +154,16 @@ def tagsOf : List Ev → List Tag
   | .save :: r => tagsOf r
 
 /-- a topic whose latest value must be in the saved file -/
-def persistent (t : Tag) : Bool :=
-  t != "SENDALL" && t != "NEWDASTARD" && !noSave.contains t.toLower && !saveAdds.contains t
+def persistent (low : String → String) (t : Tag) : Bool :=
+  t != "SENDALL" && t != "NEWDASTARD" && !noSave.contains (low t) && !saveAdds.contains t
 
 /-- the saved settings hold the latest value of every persistent topic updated in `h` -/
-def chkSaved (h : List Ev) (view : List (String × Msg)) : Bool :=
-  (tagsOf h).all (fun t => !persistent t || view.lookup t.toLower == lastUpd h t)
+def chkSaved (low : String → String) (h : List Ev) (view : List (String × Msg)) : Bool :=
+  (tagsOf h).all (fun t => !persistent low t || view.lookup (low t) == lastUpd h t)
+
+/-- tags (and the bookkeeping keys) stay distinct under the key normalisation -/
+def lowerInjB (low : String → String) (ts : List Tag) : Bool :=
+  ts.all (fun a => ts.all (fun b => low a != low b || a == b))
 
 /-! ## (ii) file system, save steps, crash, start-up -/
 
@@ -328,12 +336,15 @@ def savedOuts : List Out → List (List (String × Msg))
 
 def runH (cfg : List (String × Msg)) (ops : List HOp) (impl : List Out) : Verdict :=
   let evs := evsOf ops
-  let mo := (run (Cache.init cfg) evs).2.map canonOut
+  let mo := (run String.toLower (Cache.init cfg) evs).2.map canonOut
   let io := impl.map canonOut
+  -- the domain of the property (and of the theorems): every status value has a JSON text
+  let valid := ops.all fun o => match o with | .u _ m => m != "" | _ => true
   -- oracle on the implementation's output
-  if !chkTrace [] io then
+  if valid && !chkTrace [] io then
     .viol "C16:sendall-not-latest a SENDALL reply is not exactly the latest message of every published topic"
-  else if !((savePrefixes [] evs).zip (savedOuts io)).all (fun hv => chkSaved hv.1 hv.2) then
+  else if valid && lowerInjB String.toLower (tagsOf evs ++ saveAdds) &&
+      !((savePrefixes [] evs).zip (savedOuts io)).all (fun hv => chkSaved String.toLower hv.1 hv.2) then
     .viol "C16:saved-not-latest the saved configuration lacks the latest value of a persistent topic"
   else if mo != io then
     let i := (firstDiff mo io 0).getD 0
@@ -345,7 +356,7 @@ def runH (cfg : List (String × Msg)) (ops : List HOp) (impl : List Out) : Verdi
     let rec hasRepeat : List (String × String) → Bool
       | [] => false
       | x :: r => r.contains x || hasRepeat r
-    .ok (["H"] ++ (if replies.any (fun l => l.length > 0) then ["replay"] else [])
+    .ok (["H"] ++ (if valid then [] else ["marshal-fail"]) ++ (if replies.any (fun l => l.length > 0) then ["replay"] else [])
       ++ (if replies.any (fun l => l.length > 1) && hasRepeat ups then ["replay-multi-repeat"] else [])
       ++ (if changed then ["changed"] else [])
       ++ (if hasRepeat ups then ["repeat"] else [])
